@@ -13,7 +13,7 @@ from hypothesis import strategies as st
 
 from vlib import build
 from vlib import eclcodec as EC
-from vlib.runner import Check, Discard, sha
+from vlib.runner import Check, Discard, sha, load_known
 from vlib.probe import LibError, ProbeCrash, hexf
 
 NO_WG = ":+:+:+:+"
@@ -508,8 +508,9 @@ class C10(Check):
             "{unified, separate} x writer {library out::Summary driven by a generated deck (TIME+YEARS+blocks/wells/"
             "field/misc/regions/inter-region pairs), independent Python encoder (all vector categories)} with N vectors "
             "(every N in 1..12 and within +-3 of 1000/2000/3000/4000, 4498..4500 enumerated x 4 modes x 2 writers; random "
-            "N in 1..4500 dense around multiples of 1000), 1..8 report steps of 1..6 ministeps, values distinct for "
-            "every (vector, ministep).  Every vector x every ministep is compared through ESmry::loadData(), "
+            "N in 1..4500 dense around multiples of 1000; plus enumerated runs continuing a base run at N = 3, 11, 999, "
+            "1001, 2000 x modes x writers x {same, permuted/sub/super vector list}), 1..8 report steps of 1..6 "
+            "ministeps, values distinct for every (vector, ministep).  Every vector x every ministep is compared through ESmry::loadData(), "
             "ESmry::loadData(subset)/get (per-element seek), make_esmry_file+ExtESmry or the writer's own ESMRY+ExtESmry, "
             "and (library files) the reference decoder.  Non-trivial: N >= 1001 or N within +-2 of a multiple of 1000, "
             "with >= 2 report steps and >= 1 report step of >= 2 ministeps; distinct by (writer, fmt, unif, N, style, "
@@ -539,7 +540,8 @@ class C10(Check):
                   "covered: LGR vectors (LB*/LC*/LW*), NAMES (long well names) arrays, network node vectors, "
                   "more than one level of restart nesting, summary files still being written by another process.")
     TECHNIQUE = ("property-based testing: enumerated block-boundary vector counts + Hypothesis, two writers x three "
-                 "readers (differential + round trip), reference decoder")
+                 "readers (differential + round trip), reference decoder; heap poisoning (LD_PRELOAD malloc fill) to make "
+                 "reads behind a buffer deterministic")
 
     # ---------------------------------------------------------------- generation
     def strategy(self, tier):
@@ -584,9 +586,21 @@ class C10(Check):
                                             "where": ["same", "sub", "abs", "abslong"][(i // 2) % 4]},
                                    "esmry": bool(i % 5 < 3), "startdat3": False, "ext": [], "subset": i}
 
+    def eff_n(self, case):
+        """vector count of the (continuing) run as it is really built"""
+        n = case["run"]["n"]
+        b = case["base"]
+        if b:
+            bn = b["run"]["n"]
+            if b["vectors"] == "same":
+                n = bn
+            elif case["writer"] == "py":
+                n = {"perm": bn, "sub": 1 + max(0, (bn - 1) * 2 // 3), "super": bn + 1 + bn // 7}[b["vectors"]]
+        return n
+
     def classify(self, case):
         run = case["run"]
-        n = run["n"]
+        n = self.eff_n(case)
         rs = run["rsteps"]
         near = n >= 1001 or (n >= 998 and (n % 1000 <= 2 or n % 1000 >= 998))
         shape = len(rs) >= 2 and any(c >= 2 for c in rs)
@@ -733,6 +747,11 @@ class C10(Check):
         self.deferred = []
         v = self.check_inner(case, ctx)
         if v is None and self.deferred:
+            # several deferred findings in one case: one that is not listed as known goes first
+            known = set(e.get("key") for e in load_known(self.ID) if e.get("status") == "known")
+            for d in self.deferred:
+                if d.get("key") not in known:
+                    return d
             return self.deferred[0]
         return v
 
